@@ -14,13 +14,13 @@ open BM
 
 /-- Exact when nothing is discarded. -/
 theorem rne_exact (n q : Nat) (h : 2 ^ q ∣ n) : rne n q = n / 2 ^ q := by
-  sorry
+  exact rne_exact' n q h
 
 /-- Nearest: the rounded multiple of `2^q` is within half a quantum of `n`; on a tie the even neighbour is taken. -/
 theorem rne_nearest (n q : Nat) :
     2 * ((rne n q * 2 ^ q : Nat) - (n : Int)).natAbs ≤ 2 ^ q ∧
     (2 * ((rne n q * 2 ^ q : Nat) - (n : Int)).natAbs = 2 ^ q → rne n q % 2 = 0) := by
-  sorry
+  exact rne_nearest' n q
 
 /-! ### encode is a left inverse of decode -/
 
@@ -28,40 +28,40 @@ theorem rne_nearest (n q : Nat) :
     gives the pattern back. -/
 theorem encode_decode (f : Fmt) (hf : f.ok) (p : Nat) (hp : p < 2 ^ f.width) (hn : decode f p ≠ .nan) :
     encode f (decode f p) = p := by
-  sorry
+  exact encode_decode' f hf p hp hn
 
 /-- Distinct non-NaN patterns denote distinct values (in particular +0 and −0 are kept apart). -/
 theorem decode_injective (f : Fmt) (hf : f.ok) (p q : Nat) (hp : p < 2 ^ f.width) (hq : q < 2 ^ f.width)
     (hn : decode f p ≠ .nan) (h : decode f p = decode f q) : p = q := by
-  sorry
+  have h1 := encode_decode' f hf p hp hn
+  have h2 := encode_decode' f hf q hq (by rw [← h]; exact hn)
+  rw [← h1, ← h2, h]
 
 /-- Widening to binary64 is exact: the Python float obtained from a pattern of a narrower format denotes the same value. -/
-theorem widen_exact (f : Fmt) (hf : f.ok) (p : Nat) (hp : p < 2 ^ f.width) :
+theorem widen_exact (f : Fmt) (hf : f.ok) (p : Nat) :
     decode f64 (encode f64 (decode f p)) = decode f p := by
-  sorry
+  exact widen_exact' f hf p
 
 /-! ### the float dtypes -/
-
-def stdFmt (f : Fmt) : Prop := f = f16 ∨ f = f32 ∨ f = f64
 
 /-- bits → float → bits: packing the Python float read from a non-NaN pattern gives the pattern back. -/
 theorem packFloat_unpackFloat (f : Fmt) (hf : stdFmt f) (b : Bits) (hb : b.length = f.width) (p : Nat)
     (h : unpackFloat f b = some p) : packFloat f p = b := by
-  sorry
+  exact packFloat_unpackFloat' f (stdFmt_ok f hf) b hb p h
 
 /-- float → bits → float for binary64: every non-NaN Python float survives unchanged. -/
 theorem unpackFloat_packFloat_f64 (p : Nat) (hp : p < 2 ^ 64) (hn : decode f64 p ≠ .nan) :
     unpackFloat f64 (packFloat f64 p) = some p := by
-  sorry
+  exact unpackFloat_packFloat_f64' p hp hn
 
 /-- float → bits → float for binary16/32: a Python float that came out of the format goes back in unchanged. -/
 theorem unpackFloat_packFloat_representable (f : Fmt) (hf : stdFmt f) (b : Bits) (hb : b.length = f.width) (p : Nat)
     (h : unpackFloat f b = some p) : unpackFloat f (packFloat f p) = some p := by
-  sorry
+  rw [packFloat_unpackFloat' f (stdFmt_ok f hf) b hb p h]; exact h
 
 /-! ### non-vacuity -/
 example : f16.ok ∧ f32.ok ∧ f64.ok ∧ bf16.ok := by
-  unfold Fmt.ok Fmt.bias f16 f32 f64 bf16; decide
+  unfold Fmt.ok; decide
 example : decode f16 0x3c00 = .fin false (2 ^ 1074) := by decide +kernel
 example : encode f16 (decode f64 0x40effc0000000000) = 0x7bff := by decide +kernel   -- 65504.0, the largest half
 example : encode f16 (decode f64 0x40effe0000000000) = 0x7c00 := by decide +kernel   -- 65520.0, the tie that overflows
